@@ -270,6 +270,42 @@ fn truncate_bytes_with_reference<'a>(src: &'a [u8], compare: &'_ [u8], threshold
     &src[0..ind]
 }
 
+// Verification hooks: callable views of the private combiner functions
+#[cfg(feature = "verif-hooks")]
+#[allow(missing_docs)]
+pub mod verif_hooks {
+    use crate::message::MessageResult;
+
+    pub fn combine(bursts: &[&[u8]]) -> Option<MessageResult> {
+        super::combine(bursts.iter().copied())
+    }
+
+    pub fn estimate_message(bursts: &[&[u8]]) -> (Vec<u8>, Vec<u8>, Vec<u8>) {
+        let (a, b, c) = super::estimate_message(bursts.iter().copied());
+        (a.to_vec(), b.to_vec(), c.to_vec())
+    }
+
+    pub fn truncate_bytes_with_reference(src: &[u8], compare: &[u8], threshold: u8) -> usize {
+        super::truncate_bytes_with_reference(src, compare, threshold).len()
+    }
+
+    pub fn bit_vote_detect(b0: u8, b1: u8) -> (u8, u32) {
+        super::bit_vote_detect(b0, b1)
+    }
+
+    pub fn bit_vote_correct(b0: u8, b1: u8, b2: u8) -> (u8, u32) {
+        super::bit_vote_correct(b0, b1, b2)
+    }
+
+    pub fn is_allowed_byte(c: u8) -> bool {
+        super::is_allowed_byte(c)
+    }
+
+    pub fn message_prefix_is_eom(inp: &[u8]) -> bool {
+        super::message_prefix_is_eom(inp)
+    }
+}
+
 #[cfg(test)]
 mod tests {
     use crate::MessageDecodeErr;
